@@ -276,7 +276,14 @@ def r11_5(run):
                    'recognised as lists after a change event' % (sorted(forms), sorted(rforms)))
 
 
+def r11_6(run):
+    us = [CU(run, '_do_setup'), CU(run, '_get_defaults'), run.idx.find_method(TC(run), 'from_protocol')]
+    k = dropped_deferreds(run, 'R11.6', [u for u in us if u is not None], 'the configuration bootstrap')
+    run.floor('R11.6', 'suspension points in the configuration bootstrap', k, 6)
+
+
 RULES = [
+    ('R11.6', 'no dropped Deferred in the configuration bootstrap (every GETCONF is awaited before the view is declared ready)', r11_6),
     ('R11.5', 'sibling agreement: default lookup + parse on the unset leg in _do_setup and _conf_changed; key-form agreement of list_parsers writers/reader', r11_5),
     ('R11.1', 'store-site typing: every value stored under a Tor option key that may be list-typed is a _ListWrapper (or excluded by a dominating test / copied from the wrapped pending set)', r11_1),
     ('R11.2', 'name routing: entry points index config/parsers/unsaved only with _find_real_name results; it compares lower() on both sides', r11_2),
@@ -287,6 +294,7 @@ RULES = [
 from ..selftest import M  # noqa: E402
 F = 'txtorcon/torconfig.py'
 MUTANTS = [
+    M('post-bootstrap-not-awaited', F, "        cfg = TorConfig(control=proto)\n        yield cfg.post_bootstrap", "        cfg = TorConfig(control=proto)\n        cfg.post_bootstrap", ['R11.6']),
     M('conf-changed-unwrapped', F, "                v = _ListWrapper(\n                    v, functools.partial(self.mark_unsaved, real_name))\n            else:\n                if v == DEFAULT_VALUE:", "                pass\n            else:\n                if v == DEFAULT_VALUE:", ['R11.1']),
     M('conf-changed-plain-parse', F, "            if real_name in self.list_parsers:\n                # same shape", "            if False and real_name in self.list_parsers:\n                # same shape", ['R11.1']),
     M('save-unwrapped', F, "                value = self.parsers[real_name].parse(value)\n                if isinstance(value, list):\n                    value = _ListWrapper(\n                        value, functools.partial(self.mark_unsaved, real_name))\n", "                value = self.parsers[real_name].parse(value)\n", ['R11.1']),
